@@ -224,6 +224,7 @@ func evalC20(c *core.Ctx, cs c20Case, id string) Outcome {
 		return out
 	}
 	commits := 0
+	packed := false
 	for i, op := range cs.Ops {
 		hist = append(hist, strings.TrimSpace(fmt.Sprintf("%s %s %s", op.Kind, op.Arg, op.DryRun)))
 		switch op.Kind {
@@ -263,7 +264,7 @@ func evalC20(c *core.Ctx, cs c20Case, id string) Outcome {
 				os.Remove(filepath.Join(repo, "other.txt"))
 			case "staged-deleted":
 				if _, err := os.Stat(filepath.Join(repo, "other.txt")); err == nil {
-					g.git("rm", "-q", "--cached", "--ignore-unmatch", "other.txt")
+					g.git("rm", "-q", "-f", "--cached", "--ignore-unmatch", "other.txt")
 				}
 			}
 		case "clean":
@@ -284,6 +285,7 @@ func evalC20(c *core.Ctx, cs c20Case, id string) Outcome {
 			g.git("branch", "-f", op.Arg, "HEAD")
 		case "pack":
 			g.git("pack-refs", "--all")
+			packed = true
 		case "version":
 			version = op.Arg
 			os.WriteFile(envFile, []byte("VERSION="+version+"\n"), 0o644)
@@ -335,16 +337,31 @@ func evalC20(c *core.Ctx, cs c20Case, id string) Outcome {
 			if before.Status != after.Status || before.Index != after.Index || before.Tree != after.Tree {
 				return mk(i, "worktree-or-index-changed", trig, "index and work tree unchanged", fmt.Sprintf("status %q → %q", before.Status, after.Status))
 			}
-			var changed []string
+			// a ref "changed" when its own object id changed, or it appeared or disappeared. A
+			// non-tag ref whose object id is unchanged but for which git now reports a peeled
+			// value (or another one) has a damaged packed-refs entry: reported separately.
+			var changed, peelOnly []string
 			for ref := range before.Refs {
-				if after.Refs[ref] != before.Refs[ref] || before.RawTags[ref] != after.RawTags[ref] {
+				switch {
+				case before.RawTags[ref] != after.RawTags[ref]:
 					changed = append(changed, ref)
+				case after.Refs[ref] != before.Refs[ref]:
+					if strings.HasPrefix(ref, "refs/tags/") {
+						changed = append(changed, ref)
+					} else {
+						peelOnly = append(peelOnly, ref)
+					}
 				}
 			}
 			for ref := range after.Refs {
 				if _, ok := before.Refs[ref]; !ok {
 					changed = append(changed, ref)
 				}
+			}
+			if len(peelOnly) > 0 {
+				sort.Strings(peelOnly)
+				return mk(i, "packed-refs-entry-of-branch-damaged", tern(packed, "refs-packed,", "")+tern(dry, "dry-run", "real-run"), "the tool changes nothing but the two tags",
+					fmt.Sprintf("git now reports a peeled object for %v although the ref itself is unchanged (a stray ^-line was left in packed-refs)", peelOnly))
 			}
 			sort.Strings(changed)
 			if !eligible {
